@@ -426,6 +426,16 @@ const char *SolverAppOptionParser::Parse(char **&argv) {
   return stub;
 }
 
+#ifdef AMPL_MP_VERIF
+// Verification hook (guard AMPL_MP_VERIF): a replay harness sets the pointer
+// to deliver a signal at a chosen point; without the guard it expands to nothing.
+extern "C" { void (*mp_verif_sigpoint)(int) = 0; }
+# define MP_VERIF_SIGPOINT(n) \
+  do { if (mp_verif_sigpoint) mp_verif_sigpoint(n); } while (0)
+#else
+# define MP_VERIF_SIGPOINT(n) ((void)0)
+#endif
+
 mp::internal::atomic<const char*> SignalHandler::signal_message_ptr_;
 mp::internal::atomic<unsigned> SignalHandler::signal_message_size_;
 mp::internal::atomic<InterruptHandler> SignalHandler::handler_;
